@@ -121,6 +121,15 @@ def entries(tier="quick"):
         m.add_transform(standard.PointwiseAffineTransform(0.5, 1.5), sh)
         return m
     add("Multiscale(Squeeze+ActNorm, Affine)", multiscale, [1, 2, 4])
+
+    def multiscale_ctx():
+        # every part conditional: the context has to reach each sub-transform in both directions
+        m = base.MultiscaleCompositeTransform(3, split_dim=1)
+        sh = m.add_transform(ar.MaskedAffineAutoregressiveTransform(8, 8, context_features=2, num_blocks=1), (8,))
+        sh = m.add_transform(ar.MaskedAffineAutoregressiveTransform(sh[0], 8, context_features=2, num_blocks=1), sh)
+        m.add_transform(ar.MaskedAffineAutoregressiveTransform(sh[0], 8, context_features=2, num_blocks=1), sh)
+        return m
+    add("Multiscale(three conditional MAF parts)", multiscale_ctx, [8], ctx=[2])
     return E
 
 
@@ -170,11 +179,21 @@ def sample_inputs(e, n, seed, dtype=torch.float64):
     return x.to(dtype), (None if ctx is None else ctx.to(dtype))
 
 
-def build(e, seed, dtype=torch.float64, train=False):
+def build(e, seed, dtype=torch.float64, train=False, flat=False, fresh=False):
+    """flat=True: every parameter zero - the identity-style initialisation (zero-initialised last layers, uniform bins,
+    exactly linear interior segments) that trained-from-scratch models start from"""
     torch.manual_seed(seed)
     t = e["make"]()
-    randomize(t, seed + 1, 0.4)
+    if flat:
+        with torch.no_grad():
+            for prm in t.parameters():
+                prm.zero_()
+    else:
+        randomize(t, seed + 1, 0.4)
     t = t.to(dtype)
+    if fresh:          # no data-dependent initialisation yet: the caller's first training-mode call performs it
+        t.train(train)
+        return t
     if "ActNorm" in e["name"] or "Multiscale" in e["name"]:
         # data-dependent initialisation happens on the first training-mode forward
         t.train()
